@@ -125,6 +125,7 @@ let show_df (df : dataframe) : string =
   "COLS=" ^ cat (List.map (fun c -> hex_of_bytes c.c_name ^ ":" ^ show_dom c.c_domain ^ ":"
                                    ^ cat (List.map (fun s -> hex_of_bytes s ^ ",") c.c_states) ^ ";") df.columns)
   ^ " CLS=" ^ cat (List.map (fun (l, i) -> hex_of_bytes l ^ "=" ^ dec_of_z i ^ ",") df.classes)
+  ^ " NAMES=" ^ cat (List.mapi (fun i _ -> hex_of_bytes (class_name df.classes (z_of_int i)) ^ ",") df.classes)
   ^ " EX=" ^ cat (List.map (fun e -> show_value e.e_output ^ "|" ^ cat (List.map (fun v -> show_value v ^ ",") e.e_input) ^ ";")
                     df.dataset)
   ^ " VALID=" ^ (match is_valid df with Ok true -> "1" | Ok false -> "0" | _ -> "X")
